@@ -52,6 +52,9 @@ struct Ctx {
     // constant were zero (kind FBConstRot2, sections SX/AX only).
     std::string defectClass(const std::string& oracle, int b) const {
         if (M.specs[b].kind == mb::KFBConstRot2 && (oracle == "pose-derivative-vs-velocity" || oracle == "station-derivative-vs-velocity")) return "[FBConstRot2]";
+        // (D4) a Custom mobilizer that precalculates H / HDot in realizePosition() / realizeVelocity() as MobilizedBody_Custom.h recommends sees
+        // them one realization late (kind CustomHelixPrecalc, sections SX/AX/HX only)
+        if (M.specs[b].kind == mb::KCustomHelixPrecalc) return "[CustomHelixPrecalc]";
         if (!lineQuat(b)) return "";
         if (M.specs[b].dir == 1) return "[LineOrientation|FreeLine-rev-quat]";
         if (oracle == "NDot-vs-finite-difference") return "[LineOrientation|FreeLine-fwd-quat]";
@@ -155,6 +158,11 @@ static void checkModel(verif::Run& run, const std::vector<mb::BodySpec>& specs, 
         mul(R1, p1, R2, p2, Ra, pa); mul(Ra, pa, R3, p3, Rb, pb); mul(Rb, pb, Ri, pi_, Rc, pc);
         LD e = 0; for (int i = 0; i < 3; ++i) { e = std::max(e, fabsl(pc[i] - (LD)XGB.p()[i]) / std::max<LD>(1, fabsl(pc[i]))); for (int j = 0; j < 3; ++j) e = std::max(e, fabsl(Rc[i][j] - (LD)XGB.R().asMat33()(i, j))); }
         cx.report("pose-composition-X_GB=X_GP*X_PF*X_FM*inv(X_BM)", b, (double)e, TOL);
+        // the frames the state reports are the frames the mobilized body was constructed with (nothing in these models changes them),
+        // whatever node class the library picked for the body
+        Transform sPF, sBM; mb::specFrames(M.specs[b], sPF, sBM);
+        LD ef = 0; for (int i = 0; i < 3; ++i) { ef = std::max(ef, std::max(fabsl((LD)XPF.p()[i] - (LD)sPF.p()[i]), fabsl((LD)XBM.p()[i] - (LD)sBM.p()[i]))); for (int j = 0; j < 3; ++j) ef = std::max(ef, std::max(fabsl((LD)XPF.R().asMat33()(i, j) - (LD)sPF.R().asMat33()(i, j)), fabsl((LD)XBM.R().asMat33()(i, j) - (LD)sBM.R().asMat33()(i, j)))); }
+        cx.report("reported-inboard/outboard-frames-are-the-constructed-ones", b, (double)ef, TOL);
     }
     // ---- the same operators with non-contiguous arguments and results (rows of matrices): must give the dense columns above and
     //      leave the neighbouring rows untouched
@@ -321,12 +329,13 @@ static void checkModel(verif::Run& run, const std::vector<mb::BodySpec>& specs, 
 // ------------------------------------------------------------------ histories: a re-used State must give what a fresh State gives
 // read-outs of one realized state, grouped per mobilized body (J columns: per owner of the speed)
 struct Obs { std::vector<std::vector<std::vector<double> > > g; };      // g[group][body] = numbers
-static const char* OBS_NAME[] = {"X_FM", "V_FM", "X_GB", "V_GB", "A_GB", "qdot", "udot", "SystemJacobian-columns(H)"};
-enum { NOBS = 8 };
+static const char* OBS_NAME[] = {"X_FM", "V_FM", "X_GB", "V_GB", "A_GB", "qdot", "udot", "SystemJacobian-columns(H)", "SystemJacobian-bias-JDot*u(HDot)"};
+enum { NOBS = 9 };
 static Obs observe(const mb::Model& M, State& s) {
     const int nb = (int)M.bodies.size(), nu = s.getNU();
     M.system.realize(s, Stage::Acceleration);
     Obs o; o.g.assign(NOBS, std::vector<std::vector<double> >(nb));
+    Vector_<SpatialVec> JDotu; M.matter.calcBiasForSystemJacobian(s, JDotu);
     auto putX = [](std::vector<double>& v, const Transform& X) { for (int i = 0; i < 3; ++i) for (int j = 0; j < 3; ++j) v.push_back(X.R()[i][j]); for (int i = 0; i < 3; ++i) v.push_back(X.p()[i]); };
     auto putV = [](std::vector<double>& v, const SpatialVec& V) { for (int k = 0; k < 6; ++k) v.push_back(V[k / 3][k % 3]); };
     for (int b = 0; b < nb; ++b) {
@@ -336,6 +345,7 @@ static Obs observe(const mb::Model& M, State& s) {
         const int q0 = (int)mo.getFirstQIndex(s), nq = mo.getNumQ(s), u0 = (int)mo.getFirstUIndex(s), nub = mo.getNumU(s);
         for (int k = 0; k < nq; ++k) o.g[5][b].push_back(s.getQDot()[q0 + k]);
         for (int k = 0; k < nub; ++k) o.g[6][b].push_back(s.getUDot()[u0 + k]);
+        putV(o.g[8][b], JDotu[mo.getMobilizedBodyIndex()]);
         Vector e(nu); Vector_<SpatialVec> Je; e = 0;
         for (int k = 0; k < nub; ++k) { e[u0 + k] = 1; M.matter.multiplyBySystemJacobian(s, e, Je); e[u0 + k] = 0; for (int i = 0; i < Je.size(); ++i) for (int c = 0; c < 6; ++c) o.g[7][b].push_back(Je[i][c / 3][c % 3]); }
     }
@@ -392,12 +402,26 @@ static void checkHistories(verif::Run& run, const std::vector<mb::BodySpec>& spe
         }
     }
     run.count("histories", nHist);
+    // attribution: a stale quantity of one mobilizer shows up in the Ground-frame read-outs and accelerations of every body, so
+    // the culprits are the bodies whose OWN across-mobilizer read-outs (X_FM, V_FM, qdot) differ; failing that, the first bodies on
+    // each path from Ground whose Jacobian columns differ; failing that, the first on each path whose Jacobian bias JDot*u (purely
+    // kinematic: HDot of the path) differs; failing that, the first on each path whose Ground-frame read-outs differ.  Differences
+    // of the other bodies (dynamics couples every udot and A_GB to every hinge) are counted, not reported.
+    std::vector<char> culprit(nb, 0); bool any = false;
+    auto failing = [&](int g, int b) { return worst[g][b] > 0; };
+    auto noFailingAncestor = [&](int b, const std::vector<int>& groups) { for (int a = specs[b].parent; a >= 0; a = specs[a].parent) for (int g : groups) if (failing(g, a)) return false; return true; };
+    for (int b = 0; b < nb; ++b) if (failing(0, b) || failing(1, b) || failing(5, b)) { culprit[b] = 1; any = true; }
+    if (!any) for (int b = 0; b < nb; ++b) if (failing(7, b) && noFailingAncestor(b, {7})) { culprit[b] = 1; any = true; }
+    if (!any) for (int b = 0; b < nb; ++b) if (failing(8, b) && noFailingAncestor(b, {8})) { culprit[b] = 1; any = true; }
+    if (!any) for (int b = 0; b < nb; ++b) if ((failing(2, b) || failing(3, b) || failing(4, b)) && noFailingAncestor(b, {2, 3, 4})) { culprit[b] = 1; any = true; }
+    if (!any) for (int b = 0; b < nb; ++b) if (failing(6, b)) culprit[b] = 1;
     uint64_t oh = 1469598103934665603ULL;
     for (int g = 0; g < NOBS; ++g) for (int b = 0; b < nb; ++b) {
         if (fresh[configs[0]].g[g][b].empty()) continue;
+        for (double v : fresh[configs.back()].g[g][b]) oh = verif::hashPod((float)v, oh);
+        if (failing(g, b) && !culprit[b]) { run.count("history-difference-not-attributed:another-body-is-the-culprit"); continue; }
         Ctx cb{run, desc + " history=" + at[g][b], M, euler};
         cb.report(std::string("history-vs-fresh-state(bitwise):") + OBS_NAME[g], b, worst[g][b], 0.0);
-        for (double v : fresh[configs.back()].g[g][b]) oh = verif::hashPod((float)v, oh);
     }
     run.outcome(oh);
     if (run.verbose) for (int g = 0; g < NOBS; ++g) for (int b = 0; b < nb; ++b) printf("  %-28s body %d %-24s worst |history - fresh| = %.3g %s\n", OBS_NAME[g], b, cx.suffix(b).c_str(), worst[g][b], at[g][b].c_str());
@@ -410,9 +434,10 @@ int main(int argc, char** argv) {
     int64_t modelStride = 1;   // calibration only (marks the run non-exhaustive)
     for (size_t i = 0; i + 1 < run.extra.size(); ++i) { if (run.extra[i] == "--h") FD_H = atof(run.extra[i + 1].c_str()); if (run.extra[i] == "--stride") modelStride = atoll(run.extra[i + 1].c_str()); }
     if (modelStride > 1) run.exhaustive = false;
-    run.rule = "E3: models = section S (every KINDxDIRxFRAMES variant alone on Ground), level A (every variant as base/middle/tip/fork-branch of a 3-body tree with companions {Pin,Ball,Free}^2) and level B (all ordered parent->child pairs KIND^2xDIR^2xFRAMES{II,GG}^2), thorough adds level C (triples over 8 code families) and all 3 value sets; x COORD{quaternion,Euler} x STATE(4: zero, generic, large-angle, zero-velocity); value set = seed%3. Per case every body + 2 stations per body, every column of N/NInv/NDot, basis+generic udot*. distinct = distinct (model,coord,state,valueset); non-trivial = nu>=1 and u != 0";
+    run.rule = "E3: KIND = 19 built-in mobilizers, 5 Custom/FunctionBased mirrors with a constant hinge matrix, FunctionBased with nonlinear coordinate functions and 1..6 mobilities (FBN1..6: default/custom axes), Custom helix slider (H from X_FM, HDot from V_FM); 58 KINDxDIR variants. models = section S (every variant alone on Ground x all 8 frame pairs, incl. the four 'one part only' pairs that tell the conjuncts of the frame-flag tests apart), G (variant and companion both on Ground), level A (every variant x FRAMES(4) as base/middle/tip/fork-branch of a 3-body tree with companions {Pin,Ball,Free}^2) and level B (all ordered parent->child pairs of constant-H variants x FRAMES{II,GG}^2; every q-dependent-H variant in both orders with the 8 code families x DIR and among themselves), sections SX/AX: the two FunctionBased usages the unchanged library gets wrong (coupled rotation functions, constant non-zero rotation function) alone on Ground and in level-A trees; thorough adds level C (triples over 8 code families) and all 3 value sets; x COORD{quaternion,Euler} x STATE(4: zero, generic, large-angle, zero-velocity); value set = seed%3. Per case every body + 2 stations per body, every column of N/NInv/NDot, basis+generic udot*. History sections HS/HA/HX (models of S, A, SX) x COORD: every history realize(stage in {Position,Acceleration}; thorough + Velocity) at configuration a; [copy the State]; set q,u of configuration b != a; realize -- a,b in {generic, large-angle, zero-velocity} (thorough: all 4 state kinds and a third configuration c != b on the same carrier): 24 (thorough 288) histories per model, every read-out bitwise equal to a fresh State's. distinct = distinct (model,coord,state,valueset) resp. (model,coord,valueset) for history sections; non-trivial = nu>=1 and u != 0";
     run.assumptions = {"continuous values only from the fixed tables in engine/models.h", "trees of at most 3 mobilized bodies", "finite-difference step 1e-3 along qdot; Richardson pair (h,h/2) must agree to 1e-9 relative or the comparison is skipped and counted",
-                       "mass properties do not enter kinematics: generic mass only", "a body whose ancestor already failed the pose oracle is not reported again"};
+                       "mass properties do not enter kinematics: generic mass only", "a body whose ancestor already failed the pose oracle is not reported again",
+                       "history oracle: fresh and re-used State run the same arithmetic, so equality is demanded bitwise; a difference is attributed to the bodies whose own across-mobilizer read-outs differ (else first differing Jacobian columns / Ground-frame read-outs on each path from Ground)"};
     const int vs0 = (int)(((run.seed % 3) + 3) % 3);
     std::vector<int> valueSets = th ? std::vector<int>{0, 1, 2} : std::vector<int>{vs0};
     mb::LevelA A; mb::LevelB B; mb::LevelC C; mb::LevelG G; mb::LevelS S;
